@@ -1,15 +1,12 @@
 package watch
 
 import (
-	"bytes"
 	"encoding/json"
 	"fmt"
 	"log"
 	"os"
 	"path/filepath"
-	"regexp"
 	"runtime"
-	"sort"
 	"strings"
 	"sync"
 	"syscall"
@@ -17,7 +14,6 @@ import (
 	"unsafe"
 
 	"github.com/robfig/soy"
-	"github.com/robfig/soy/ast"
 	"github.com/robfig/soy/data"
 	"github.com/robfig/soy/soyhtml"
 	"github.com/robfig/soy/template"
@@ -62,10 +58,11 @@ type Result struct {
 	Sched    []Write    `json:"sched"`
 	Trace    []Event    `json:"trace"`
 	Obs      [][]string `json:"obs"`        // rendered versions at the quiescence after each write
-	ObsX     []string   `json:"obsx"`       // parse-pass tags and global seen in those renders: "p1+p2|g"
+	ObsX     []string   `json:"obsx"`       // what else those registries show: "passes|global|messages|source maps|javascript"
 	Passes   []int      `json:"pass_calls"` // invocations of each registered parse pass
 	Disk     [][]string `json:"disk"`       // what the harness put on disk, after each write
 	Logs     []string   `json:"logs"`       // the raw log lines, for the replay case
+	Notes    []string   `json:"notes"`      // what the observations found wrong, in words
 	Trouble  string     `json:"trouble,omitempty"`
 	SettleUS []int64    `json:"settle_us,omitempty"`
 }
@@ -73,27 +70,9 @@ type Result struct {
 // ModelMethod maps a harness method to the method of SoyWatch.
 func ModelMethod(m string) string { return strings.TrimSuffix(m, "_slow") }
 
-// GlobalName/GlobalValue: every template prints this global; PassTags: the
-// registered parse passes, each appends its tag as raw text to every template.
-const (
-	GlobalName  = "GV"
-	GlobalValue = "g"
-)
-
-var PassTags = []string{"p1", "p2"}
-
-func source(f int, v string) string {
-	body := v + "-{" + GlobalName + "}"
-	if v == "bad" {
-		body = "{if}"
-	}
-	return fmt.Sprintf("{namespace w.f%d}\n\n/** prints the version of this file and a global */\n{template .t}\n%s\n{/template}\n", f, body)
-}
-
-func tmplName(f int) string { return fmt.Sprintf("w.f%d.t", f) }
-
 type recorder struct {
 	mu     sync.Mutex
+	notes  []string
 	trace  []Event
 	logs   []string
 	nlines int
@@ -125,61 +104,21 @@ func (r *recorder) Write(p []byte) (int, error) {
 	return len(p), nil
 }
 
+func (r *recorder) note(where string, v view) {
+	r.mu.Lock()
+	for _, n := range v.note {
+		if len(r.notes) < 40 {
+			r.notes = append(r.notes, where+": "+n)
+		}
+	}
+	r.mu.Unlock()
+}
+
 func (r *recorder) lines() int {
 	r.mu.Lock()
 	defer r.mu.Unlock()
 	return r.nlines
 }
-
-// view is what the templates of one registry show: per file the version, and
-// (agreeing over the files, the registry is compiled as a whole) the tags of
-// the parse passes it went through and the value of the global.
-type view struct {
-	vers []string
-	p    []string
-	g    string
-}
-
-var reOut = regexp.MustCompile(`^(v1|v2)-([^+]*)((?:\+[a-z0-9]+)*)$`)
-
-func renderAll(t *soyhtml.Tofu, nf int) view {
-	v := view{vers: make([]string, nf), p: []string{}, g: "none"}
-	first := true
-	for f := 1; f <= nf; f++ {
-		var buf bytes.Buffer
-		v.vers[f-1] = "none"
-		if err := t.Render(&buf, tmplName(f), nil); err != nil {
-			continue
-		}
-		m := reOut.FindStringSubmatch(strings.TrimSpace(buf.String()))
-		if m == nil {
-			continue
-		}
-		v.vers[f-1] = m[1]
-		tags := []string{}
-		if m[3] != "" {
-			tags = strings.Split(m[3][1:], "+")
-		}
-		sort.Strings(tags)
-		g := m[2]
-		if g == "" {
-			g = "none"
-		}
-		if first {
-			v.p, v.g, first = tags, g, false
-			continue
-		}
-		if strings.Join(tags, "+") != strings.Join(v.p, "+") {
-			v.p = []string{"MIXED"}
-		}
-		if g != v.g {
-			v.g = "MIXED"
-		}
-	}
-	return v
-}
-
-func (v view) key() string { return strings.Join(v.p, "+") + "|" + v.g }
 
 // inotifyFD finds the (only) inotify descriptor of this process.
 func inotifyFD() (int, error) {
@@ -255,6 +194,8 @@ type driver struct {
 	job    Job
 	rec    *recorder
 	tofu   *soyhtml.Tofu
+	reg    *template.Registry
+	obs    *observer
 	ifd    int
 	res    *Result
 	ntmp   int
@@ -384,16 +325,7 @@ func RunJob(job Job) (res *Result) {
 	soy.Logger = log.New(rec, "", 0)
 	bundle := soy.NewBundle().WatchFiles(true).AddGlobalsMap(data.Map{GlobalName: data.String(GlobalValue)})
 	res.Passes = make([]int, len(PassTags))
-	for i, tag := range PassTags {
-		i, tag := i, tag
-		bundle.AddParsePass(func(reg template.Registry) error {
-			res.Passes[i]++
-			for _, t := range reg.Templates {
-				t.Node.Body.Nodes = append(t.Node.Body.Nodes, &ast.RawTextNode{Text: []byte("+" + tag)})
-			}
-			return nil
-		})
-	}
+	addPasses(bundle, res.Passes)
 	disk := make([]string, job.NF)
 	for f := 1; f <= job.NF; f++ {
 		if err := os.WriteFile(d.path(f), []byte(source(f, "v1")), 0o644); err != nil {
@@ -402,29 +334,46 @@ func RunJob(job Job) (res *Result) {
 		disk[f-1] = "v1"
 		bundle.AddTemplateFile(d.path(f))
 	}
+	paths := make([]string, job.NF)
+	for f := 1; f <= job.NF; f++ {
+		paths[f-1] = d.path(f)
+	}
+	obs, err := newObserver(paths)
+	if err != nil {
+		return fail("expectations from fresh compiles: %v", err)
+	}
+	d.obs = obs
 	bundle.SetRecompilationCallback(func(reg *template.Registry) {
-		arg := renderAll(soyhtml.NewTofu(reg), job.NF)
+		arg := obs.observe(reg, soyhtml.NewTofu(reg))
 		// what is visible through the Tofu while the callback runs (this is the
 		// recompiler goroutine itself: no race with the swap)
 		vis := arg
 		if d.tofu != nil {
-			vis = renderAll(d.tofu, job.NF)
+			vis = obs.observe(d.reg, d.tofu)
 		}
-		rec.add(Event{"ev": "callback", "vers": arg.vers, "p": arg.p, "g": arg.g, "vis": vis.vers, "visp": vis.p, "visg": vis.g})
+		rec.note("callback argument", arg)
+		rec.note("registry in use during the callback", vis)
+		rec.add(Event{"ev": "callback", "vers": arg.vers, "p": arg.p, "g": arg.g, "m": arg.m, "src": arg.src,
+			"vis": vis.vers, "visp": vis.p, "visg": vis.g, "vism": vis.m, "vissrc": vis.src})
 	})
-	tofu, err := bundle.CompileToTofu()
+	reg, err := bundle.Compile()
 	if err != nil {
 		return fail("initial compile: %v", err)
 	}
-	d.tofu = tofu
+	tofu := soyhtml.NewTofu(reg)
+	d.reg, d.tofu = reg, tofu
+	// a long-lived JavaScript generator on the registry in use, asked once now
+	if js := obs.generate(reg, true); strings.Join(js, ",") != strings.Repeat("v1,", job.NF-1)+"v1" {
+		return fail("initial javascript %v", js)
+	}
 	if d.ifd, err = inotifyFD(); err != nil {
 		return fail("%v", err)
 	}
 	if err := d.settle(); err != nil {
 		return fail("initial: %v", err)
 	}
-	if got := renderAll(tofu, job.NF); strings.Join(got.vers, ",") != strings.Join(disk, ",") {
-		return fail("initial render %v", got)
+	if got := obs.observe(reg, tofu); strings.Join(got.vers, ",") != strings.Join(disk, ",") || got.key() != obs.fullKey(got.vers) {
+		return fail("initial observation %+v", got)
 	}
 	for i, w := range job.Sched {
 		if w.F < 1 || w.F > job.NF {
@@ -440,15 +389,18 @@ func RunJob(job Job) (res *Result) {
 			return fail("after write %d (%+v): %v", i, w, err)
 		}
 		// the recompiler is parked: rendering does not race with a swap
-		r := renderAll(tofu, job.NF)
-		rec.add(Event{"ev": "quiesce", "r": r.vers, "p": r.p, "g": r.g})
+		r := obs.observe(reg, tofu)
+		js := obs.generate(reg, false)
+		rec.note(fmt.Sprintf("quiescence after write %d", i+1), r)
+		rec.add(Event{"ev": "quiesce", "r": r.vers, "p": r.p, "g": r.g, "m": r.m, "src": r.src, "js": js})
 		res.Obs = append(res.Obs, r.vers)
-		res.ObsX = append(res.ObsX, r.key())
+		res.ObsX = append(res.ObsX, r.key()+"|"+strings.Join(js, ","))
 		res.Disk = append(res.Disk, append([]string(nil), disk...))
 	}
 	rec.mu.Lock()
 	res.Trace = append([]Event(nil), rec.trace...)
 	res.Logs = append([]string(nil), rec.logs...)
+	res.Notes = append([]string{}, rec.notes...)
 	rec.mu.Unlock()
 	return res
 }
